@@ -32,7 +32,7 @@ CHECKS = {
         text='Seeded histories of element-adding / removing / container-deriving operations on host containers of 0, 1, '
              '9998..10001 elements and on program-grown ones; at-cap atomic refusal and below-cap behaviour judged against '
              'the reference model, plus a global growth bound checked on every node evaluation result and on everything '
-             'reachable from names/result. Six cap-bypass sites of the pinned tree are listed known findings (keyed by '
+             'reachable from names/result; table entries the reference semantics do not know are swept over boundary containers. Six cap-bypass sites of the pinned tree are listed known findings (keyed by '
              'producing site); any other site is a violation.',
         design='5/C03', technique='deterministic simulation: boundary-state histories with the refused operation as the fault, model + growth-bound monitor',
         note='B = max(10000, longest host-supplied list/dict/str); strings are not capped; derivatives of an already '
@@ -41,7 +41,8 @@ CHECKS = {
         category='exploration',
         text='Seeded histories of parse/eval/list_names on one long-lived parser with invalid sources of every '
              'constructed kind, failing programs, budget aborts, abandoned generators, asynchronous kills at sampled line '
-             'events inside the package, re-entry and interleaved names mappings; each call compared (result, exception '
+             'events inside the package, re-entry, listings read after later calls, host calls of stored lambdas, canary programs '
+             'after failed calls and interleaved names mappings; each call compared (result, exception '
              'class and message, names, probe log) with the same call in a history-free twin universe (second import of '
              'the package, module state and decimal context reset, pristine parser).',
         design='5/C11', technique='deterministic simulation: crash/abandon/kill fault injection on a long-lived parser vs a history-free twin universe',
@@ -51,7 +52,8 @@ CHECKS = {
         category='exploration',
         text='Seeded histories of parse/eval with repeated, near-duplicate and failing sources driving a parser with a '
              'simulator-owned cache (dict, prewarmed, LRU 1-4, always-evicting, write-dropping, re-entering; evictions '
-             'between calls) and an uncached twin parser; host mutates returned results; names alternate. Oracle: '
+             'between calls) and an uncached twin parser; host mutates returned results; names alternate; name listings (also '
+             'abandoned or read later), decimal-context switches, texts nested 600-1400 levels deep, host calls of stored lambdas. Oracle: '
              'per-call equality, cached-tree snapshots never change, every entry equals an uncached parse of its key, '
              'failures never cached.',
         design='5/C17', technique='deterministic simulation: storage-node (cache) fault injection, cached world vs uncached twin world',
@@ -62,7 +64,8 @@ CHECKS = {
              'table (all of them) applied to names incl. earlier results, literals, attribute-/format-like strings, builtins '
              'and lambdas, dotted %names%, signature-derived argument lists; monitor = plain-data type walk of every node '
              'evaluation result, final result and names; I/O seam = audit hook armed only while eval runs (3% of runs on a '
-             'really fresh SqParser). The I/O seam and the history are simulation; the quantifier over all builtins x '
+             'really fresh SqParser), with op-budget aborts, a host function that re-enters the parser, and lazily importable '
+             'stdlib modules evicted from sys.modules for the run. The I/O seam and the history are simulation; the quantifier over all builtins x '
              'arguments is sampled by the generator.',
         design='5/C02', technique='deterministic simulation: I/O seam (audit hook) + always-on type-walk monitor over obtain-store-reuse histories',
         note='Lazy imports inside third-party/stdlib code are recorded not judged; classes exposed as builtins are left '
@@ -81,7 +84,9 @@ CHECKS = {
         text='PARTIAL. The timeout wiring of every builtin call that reaches the regex engine is checked under a virtual '
              'clock over seeded call histories (call / method / pipe / inside lambdas, flags, adversarial and long subjects, '
              'virtual time passing inside an evaluation): every engine entry must carry 0 < timeout <= 0.1 s + 5e-6 s/char and '
-             'one builtin call may be charged at most 0.25 s + 1e-5 s/char. The engine is trusted to honour timeout=; its '
+             'one builtin call may be charged at most 0.25 s + 1e-5 s/char (also with engine timeouts injected, some arriving '
+             'early on the wall clock, host-compiled patterns, and locks behind a seam that turns a blocking acquire of a '
+             'held lock into a reported deadlock). The engine is trusted to honour timeout=; its '
              'compile phase has none (listed known finding, confirmed by a bounded real probe that cannot raise new alarms).',
         design='5/C05', technique='deterministic simulation: virtual clock behind the regex and time seams (engine stubbed for timing)',
         note='The real timeout clock is clock() inside _regex.c and cannot be put behind a Python seam: level "other".'),
